@@ -114,10 +114,18 @@ pub fn gen_len(rng: &mut Rng, sw: &Swarm, max: usize) -> usize {
             _ => rng.urange(120, 135),
         }
     } else {
-        match rng.below(10) {
+        match rng.below(12) {
             0 => 0,
             1 => 1,
             2 => rng.urange(120, 135),
+            3 => rng.urange(13, 119),
+            4 => {
+                if rng.chance(1, 4) {
+                    rng.urange(136, 600)
+                } else {
+                    rng.urange(13, 70)
+                }
+            }
             _ => rng.urange(2, 12),
         }
     };
@@ -190,6 +198,9 @@ pub fn gen_bin_n(rng: &mut Rng, n: usize) -> Bs {
     }
 }
 
+/// Ordinary first levels that resemble `$share/` and `$SYS/` (all valid, unshared).
+pub const NEAR_MISS: [&str; 10] = ["$sharex/", "$share", "$shar/", "$Share/", "$shared/", "$SYS", "$sys/", "$/", "$share$/", "$sharé/"];
+
 fn level_ok(c: char) -> bool {
     !matches!(c, '/' | '+' | '#' | '\0')
 }
@@ -201,10 +212,11 @@ pub fn gen_topic_name(rng: &mut Rng, sw: &Swarm) -> Bs {
         return Bs(vec![]);
     }
     let mut s = String::new();
-    match rng.below(12) {
+    match rng.below(14) {
         0 => s.push_str("$SYS/"),
         1 => s.push_str("$share/"),
         2 => s.push('/'),
+        3 => s.push_str(*rng.pick(&NEAR_MISS)),
         _ => {}
     }
     while s.len() < total {
@@ -243,6 +255,9 @@ pub fn gen_topic_filter(rng: &mut Rng, sw: &Swarm) -> Bs {
         s.push('/');
     } else if rng.chance(1, 12) {
         s.push_str("$SYS/");
+    } else if rng.chance(1, 12) {
+        // first levels that look almost like the special prefixes but are ordinary text
+        s.push_str(*rng.pick(&NEAR_MISS));
     }
     let start = s.len();
     let mut first = true;
@@ -415,7 +430,13 @@ pub fn gen_packet_of(rng: &mut Rng, sw: &Swarm, t: u8) -> Ast {
         3 => {
             let qos = rng.below(3) as u8;
             let props = gen_props(rng, sw, 3);
-            let payload = payload_for(rng, sw, &props);
+            let mut payload = payload_for(rng, sw, &props);
+            if sw.big_permil > 0 && rng.chance(1, 200) && !tiny() {
+                // payload sizes that are exact powers of two (buffer / chunk boundaries)
+                let n = 1usize << rng.urange(10, 17);
+                let delta = *rng.pick(&[0usize, 0, 0, 1]);
+                payload = Bs(vec![b'P'; n + delta]);
+            }
             Ast::Publish {
                 dup: rng.bool(),
                 qos,
